@@ -69,21 +69,37 @@ class C09(Property):
     min_nontrivial = {"quick": 300, "thorough": 15000}
 
     def gen(self, rnd, i, tier):
+        """topology: a tree below the output. nodes = adapters (parent -1 = the output);
+        consumers hang below a node or the output; fan-out may happen at the output and at any
+        adapter that is not (downstream of) a no-branch adapter."""
         ncons = rnd.randint(1, 4)
-        cons = []
+        nodes, cons = [], []
         for _ in range(ncons):
             r = rnd.random()
-            if r < 0.4:
-                chain = []
-            elif r < 0.7:
-                chain = [rnd.choice(["scale", "probe"]) for _ in range(rnd.randint(1, 2))]
+            parent = -1
+            if r < 0.35:
+                pass
+            elif r < 0.75:
+                # pass-through chain, possibly sharing an existing branching-capable node
+                share = [j for j, nd in enumerate(nodes) if nd["branch_ok"]]
+                if share and rnd.random() < 0.5:
+                    parent = rnd.choice(share)
+                for _ in range(rnd.randint(0 if parent >= 0 else 1, 2)):
+                    kind = rnd.choice(["scale", "probe", "dfix", "dfix"])
+                    nodes.append(dict(kind=kind, parent=parent, d=rnd.choice([0, 1, 2, 5, 9]) if kind == "dfix" else 0,
+                                      branch_ok=(parent < 0 or nodes[parent]["branch_ok"])))
+                    parent = len(nodes) - 1
             else:
-                chain = [rnd.choice(PUSH_BASED)]
                 if rnd.random() < 0.3:
-                    chain.append("scale")
-                if rnd.random() < 0.3:
-                    chain.insert(0, "scale")
-            cons.append(chain)
+                    nodes.append(dict(kind="scale", parent=parent, d=0, branch_ok=True))
+                    parent = len(nodes) - 1
+                nodes.append(dict(kind=rnd.choice(PUSH_BASED), parent=parent, d=0, branch_ok=False))
+                parent = len(nodes) - 1
+                if rnd.random() < 0.4:
+                    kind = rnd.choice(["scale", "dfix"])
+                    nodes.append(dict(kind=kind, parent=parent, d=rnd.choice([0, 1, 3]) if kind == "dfix" else 0, branch_ok=False))
+                    parent = len(nodes) - 1
+            cons.append(dict(parent=parent))
         long_run = rnd.random() < 0.15
         n = rnd.randint(150, 400 if tier == "quick" else 3000) if long_run else rnd.randint(10, 60)
         events = []
@@ -105,34 +121,56 @@ class C09(Property):
                     tq = rnd.randint(lo, t) if rnd.random() < 0.8 else t
                 last[c] = tq
                 events.append(["pull", c, tq])
-        return dict(cons=cons, events=events)
+        return dict(nodes=nodes, cons=cons, events=events)
 
     def run(self, spec):
         install_invariant()
         out = Outcome()
-        out.sample = dict(cons=spec["cons"], n_events=len(spec["events"]), first_events=spec["events"][:12])
+        out.sample = dict(nodes=spec["nodes"], cons=spec["cons"], n_events=len(spec["events"]), first_events=spec["events"][:12])
         info = fm.Info(time=slots.T0, grid=fm.NoGrid(), units="")
         o = fm.Output(name="out", info=info)
-        inputs, chains = [], []
-        for k, chain in enumerate(spec["cons"]):
-            x = o
-            ads = [mk_adapter(a) for a in chain]
-            for a in ads:
-                x = x >> a
+        ads = []
+        for nd in spec["nodes"]:
+            a = fm.adapters.DelayFixed(slots.timedelta(seconds=nd["d"])) if nd["kind"] == "dfix" else mk_adapter(nd["kind"])
+            (o if nd["parent"] < 0 else ads[nd["parent"]]) >> a
+            ads.append(a)
+        inputs = []
+        for k, c in enumerate(spec["cons"]):
             inp = fm.Input(name=f"in{k}", info=info.copy_with())
-            x >> inp
+            (o if c["parent"] < 0 else ads[c["parent"]]) >> inp
             inputs.append(inp)
-            chains.append(ads)
         for inp in inputs:
             inp.ping()
         for inp in inputs:
             inp.exchange_info()
+
+        def path(c):
+            """adapter kinds from the consumer upstream to the output"""
+            p, j = [], spec["cons"][c]["parent"]
+            while j >= 0:
+                p.append(spec["nodes"][j])
+                j = spec["nodes"][j]["parent"]
+            return p
+
+        paths = [path(c) for c in range(len(inputs))]
         hist = History()
         ncons = len(inputs)
-        # end points as the output sees them: final inputs (direct / pass-through) or the first push-based adapter
-        pb = [next((a for a in spec["cons"][k] if a in PUSH_BASED), None) for k in range(ncons)]
+        # end points as the output sees them: the final input (direct / pass-through / delay) or
+        # the push-based adapter on the path (which pulls at every notification)
+        pb = [next((nd["kind"] for nd in paths[k] if nd["kind"] in PUSH_BASED), None) for k in range(ncons)]
+        pbnode = [next((id(nd) for nd in paths[k] if nd["kind"] in PUSH_BASED), None) for k in range(ncons)]
         last_req = {}  # endpoint key -> last request time seen by the output
-        endpoint = [("ada", k) if pb[k] else ("in", k) for k in range(ncons)]
+        endpoint = [("ada", pbnode[k]) if pb[k] else ("in", k) for k in range(ncons)]
+
+        def shifted(c, tq):
+            """request time after the fixed delays between consumer c and the output/push-based adapter"""
+            for nd in paths[c]:
+                if nd["kind"] in PUSH_BASED:
+                    break
+                if nd["kind"] == "dfix":
+                    tq = max(tq - nd["d"], 0)
+            return tq
+
         evictions = 0
         prev_len = 0
         before = _INV["evals"]
@@ -151,10 +189,11 @@ class C09(Property):
                 _, c, tq = ev
                 if not hist.in_range(tq):
                     continue
+                tq_orig, tq = tq, shifted(c, tq)
                 try:
-                    got = inputs[c].pull_data(slots.t(tq))
+                    got = inputs[c].pull_data(slots.t(tq_orig))
                 except (fm.FinamTimeError, fm.FinamNoDataError) as e:
-                    out.viol("needed_history_dropped", f"consumer {c} ({spec['cons'][c]}) pull at {tq}s refused: {e} although publications span [{hist.oldest},{hist.newest}] and its requests never decreased", spec=spec)
+                    out.viol("needed_history_dropped", f"consumer {c} ({[nd['kind'] for nd in paths[c]]}) pull at {tq}s refused: {e} although publications span [{hist.oldest},{hist.newest}] and its requests never decreased", spec=spec)
                     return out
                 val = float(np.asarray(got.magnitude).ravel()[0])
                 if pb[c] is None:
@@ -177,7 +216,7 @@ class C09(Property):
                     exp = None if e is None else float(e)
                 out.count("pulls_compared")
                 if not ok:
-                    out.viol("differs_from_unlimited_history", f"consumer {c} ({spec['cons'][c]}) pull at {tq}s returned {val}, unlimited-history model says {exp}", spec=spec)
+                    out.viol("differs_from_unlimited_history", f"consumer {c} ({[nd['kind'] for nd in paths[c]]}) pull at {tq}s returned {val}, unlimited-history model says {exp}", spec=spec)
                     return out
                 if pb[c] is None:
                     last_req[endpoint[c]] = tq
@@ -206,13 +245,19 @@ class C09(Property):
             import hashlib
 
             h = hashlib.md5(repr(spec["events"]).encode()).hexdigest()[:10]
-            out.key = repr(spec["cons"]) + h
+            out.key = repr([[nd["kind"] for nd in p] for p in paths]) + h
         if len(spec["events"]) > 150:
             out.count("long_histories")
+        if any(nd["kind"] == "dfix" for nd in spec["nodes"]):
+            out.count("cases_with_delay_adapter")
+        parents = [nd["parent"] for nd in spec["nodes"]] + [c["parent"] for c in spec["cons"]]
+        if any(parents.count(j) > 1 for j in range(len(spec["nodes"]))):
+            out.count("cases_with_fanout_below_adapter")
         return out
 
     def coverage_gaps(self, counters, tier):
-        need = ["publications", "pulls_compared", "bound_checks", "evictions", "invariant_evaluations", "long_histories"]
+        need = ["publications", "pulls_compared", "bound_checks", "evictions", "invariant_evaluations", "long_histories",
+                "cases_with_delay_adapter", "cases_with_fanout_below_adapter"]
         return [f"{k} never observed" for k in need if not counters.get(k)]
 
 
